@@ -49,6 +49,7 @@ def tasks_c01(tier, seed):
             if c != CFG_DEFAULT:
                 ts += explore("Q1s", c, 1, shards=1, timeout="60s")
         ts += explore("Q2", CFG_DEFAULT, 2) + explore("Q2", alt, 2)
+        ts += explore("Q7", "w1-in4-default-direct", 2, shards=2, timeout="60s") + explore("Q7", CFG_DEFAULT, 1, timeout="60s")
         ts += explore("Q3", CFG_DEFAULT, 1, timeout="60s") + explore("Q3", alt, 2, shards=4, timeout="60s")
         ts += explore("Q6", alt, 2, shards=2, timeout="60s") + explore("Q6", "w1-in4-default-direct", 1, shards=2, timeout="60s")
         ts += explore("Q1", CFG_DEFAULT, 0, shards=1, timeout="60s")
@@ -65,7 +66,7 @@ def tasks_c01(tier, seed):
 
 def tasks_c03(tier, seed):
     ts = []
-    scens = ["S1", "S2", "S3Reset", "S3ResetAll", "S3TokenEvent", "S3TokenEventWithID", "S3TokenReset", "S4", "S7", "Q6", "QEshutdown"]
+    scens = ["S1", "S2", "S3Reset", "S3ResetAll", "S3TokenEvent", "S3TokenEventWithID", "S3TokenReset", "S4", "S6", "S7", "Q6", "QEshutdown"]
     if tier == "quick":
         for s in scens:
             big = s in ("S1", "S2", "Q6")
@@ -175,8 +176,8 @@ def tasks_c16(tier, seed):
     w1 = "w1-in4-default-direct"
     b = 1 if tier == "quick" else 2
     to = "100s" if tier == "quick" else "30m"
-    for s in ["S1", "S2", "S3Reset", "S3ResetAll", "S3TokenEvent", "S3TokenEventWithID", "S3TokenReset", "S4", "S7", "Q6", "L1", "S1L"]:
-        ts += explore(s, w1, b + 1 if s in ("S1", "S3Reset", "L1") else b, race=True, timeout=to)
+    for s in ["S1", "S2", "S3Reset", "S3ResetAll", "S3TokenEvent", "S3TokenEventWithID", "S3TokenReset", "S4", "S6", "S7", "Q6", "L1", "S1L"]:
+        ts += explore(s, w1, b + 1 if s in ("S1", "S3Reset", "L1", "S6") else b, race=True, timeout=to)
         if s not in ("Q6", "L1", "S1L"):
             ts += explore(s, CFG_DEFAULT, b, race=True, timeout=to)
     for s in ["Q1s", "Q2", "Q3"]:
